@@ -321,9 +321,6 @@ CLAIMS["C15"] = dict(
 ADDENDA = {
     "C19": " Also: The suggestion filter is an interpreted table with call histories.",
     "C18": " Also: Classes compared through vars(self) assign the same attributes on every constructor path.",
-    "C04": " Also: Lexer tokenize overrides hand the text on unchanged (all-categories Unicode probe).",
-    "C08": " Also: A select in FROM is planned clause for clause as written (672 inner x outer clause combinations).",
-    "C06": " Also: Qualified names are columns whatever their last part spells; f(x FROM y) passes x as an expression; + is kept by the generic operator (SQLAlchemy's __add__ concatenates over string-typed operands).",
     "C02": " Also: sly's defaulted states (computed by its own code on the reconstructed tables) never default-reduce an empty production where the error callback can return (driver termination in panic mode).",
     "C01": " Also: numbers print as one numeric literal of the library's lexer that reads back as the value (C07's table, incl. 1e+16 / 1e-07). Names the grammar keeps as raw id token text are printed as that text (carriers found by interpreting the actions).",
     "C03": " Also: an operator token spelled with several words is one token under every ignored white space between the words (ordered-lexer simulation). The operator actions leave their operands (parentheses marks included) untouched.",
@@ -341,6 +338,10 @@ ADDENDA = {
     "C16": " Also: every embedding production interpreted with the real node constructors: the node holds exactly the text tokens_to_string rebuilt. The text the lexer tokenizes is the caller's (parse_sql and every tokenize override interpreted on an all-categories Unicode probe).",
     "C20": " Also: no mutable default argument (list / dict / set display) is stored, returned, handed on or changed by its function. Renderer methods undo what they write into self in a finally (or reset / memoise).",
 }
+
+ADDENDA["C04"] = ADDENDA.get("C04", " Also:") + " Lexer tokenize overrides hand the text on unchanged (all-categories Unicode probe)."
+ADDENDA["C08"] = ADDENDA.get("C08", " Also:") + " A select in FROM is planned clause for clause as written (672 inner x outer clause combinations)."
+ADDENDA["C06"] = ADDENDA.get("C06", " Also:") + " Qualified names are columns whatever their last part spells; f(x FROM y) passes x as an expression; + is kept by the generic operator (SQLAlchemy's __add__ concatenates over string-typed operands)."
 
 NA_PENDING = "check under construction in this session; not claimed until its rule module is committed"
 
